@@ -708,6 +708,7 @@ typedef struct {
     JanetTable *reg;
     JanetFuncEnv **lookup_envs;
     JanetFuncDef **lookup_defs;
+    JanetFuncDef **open_defs; /* definitions whose sub-definitions are still being read */
     const uint8_t *start;
     const uint8_t *end;
 } UnmarshalState;
@@ -1016,9 +1017,18 @@ static const uint8_t *unmarshal_one_def(
             if (!def->defs) {
                 JANET_OUT_OF_MEMORY;
             }
+            janet_v_push(st->open_defs, def);
             for (int32_t i = 0; i < defs_length; i++) {
                 data = unmarshal_one_def(st, data, def->defs + i, flags + 1);
+                /* Sub-definitions form a tree (shared leaves allowed): a reference back to an enclosing
+                 * definition would make every walk over the definitions recurse for ever. */
+                for (int32_t j = 0; j < janet_v_count(st->open_defs); j++) {
+                    if (st->open_defs[j] == def->defs[i]) {
+                        janet_panic("invalid funcdef reference (cycle)");
+                    }
+                }
             }
+            janet_v_pop(st->open_defs);
         } else {
             def->defs = NULL;
         }
@@ -1640,6 +1650,7 @@ Janet janet_unmarshal(
     st.start = bytes;
     st.end = bytes + len;
     st.lookup_defs = NULL;
+    st.open_defs = NULL;
     st.lookup_envs = NULL;
     st.lookup = NULL;
     st.reg = reg;
@@ -1647,6 +1658,7 @@ Janet janet_unmarshal(
     const uint8_t *nextbytes = unmarshal_one(&st, bytes, &out, flags);
     if (next) *next = nextbytes;
     janet_v_free(st.lookup_defs);
+    janet_v_free(st.open_defs);
     janet_v_free(st.lookup_envs);
     janet_v_free(st.lookup);
     return out;
